@@ -24,6 +24,9 @@ def tag_props(tag):
     return ['C16']
 
 
+import itertools
+
+
 def cases(wire_cases, tier, seed):
     r = random.Random(seed * 29 + 16)
     per = {}
@@ -134,6 +137,26 @@ def cases(wire_cases, tier, seed):
             d = list(body)
             d[min(1, len(d) - 1)] = r.choice([0, 1, 2, 255])
             out.append({'type': 'ext6', 'start': nh, 'bytes': d[:r.choice([len(d), max(0, len(d) - 5)])]})
+    # systematic chains (the random ones above rarely fill every slot of the struct decoders): every presence mask in RFC 8200 order and
+    # every order of a chain that fills all five slots behind the hop-by-hop header, each announcing every kind of next header behind
+    # its LAST header (a further extension header, hop-by-hop out of place, a transport protocol)
+    def chain_case(chain, fin):
+        body, nh = [], fin
+        for kind in reversed(chain):
+            body = gen_hdr(kind, nh) + body
+            nh = kind
+        return {'type': 'ext6', 'start': nh, 'bytes': body + [r.randrange(256) for _ in range(r.choice([0, 8, 24]))]}
+    lasts = (0, 60, 43, 44, 51, 17) if tier == 'quick' else (0, 60, 43, 44, 51, 135, 139, 140, 17, 6, 58, 59, 50)
+    for mask in range(64):
+        chain = [k for bit, k in enumerate([0, 60, 43, 44, 51, 60]) if mask >> bit & 1]
+        for fin in lasts:
+            out.append(chain_case(chain, fin))
+    perms = sorted(set(itertools.permutations([60, 43, 60, 44, 51])))
+    for pi, pm in enumerate(perms):
+        for fin in lasts:
+            if tier != 'quick' or (pi + fin) % 2 == 0:
+                out.append(chain_case(list(pm), fin))
+                out.append(chain_case([0] + list(pm), fin))
     for st in (51, 17, 0, 44):
         for u in (0, 1, 2, 5):
             a = [17, u, 0, 0] + [r.randrange(256) for _ in range(max(8, 4 * (u + 2) - 4))]
@@ -141,7 +164,6 @@ def cases(wire_cases, tier, seed):
                 out.append({'type': 'ext4', 'start': st, 'bytes': a[:cut]})
     # the LimitedReader machine driven directly: every call sequence of up to 3 calls (read_exact(n), start_layer) for every budget / data length,
     # plus longer seeded sequences
-    import itertools
     M = 5 if tier == 'quick' else 7
     alphabet = [[n] for n in range(0, M + 1)] + [[-1]]
     for mx in range(0, M + 1):
